@@ -227,6 +227,14 @@ let fl2_oracle (a : z) : z =
   | OOk [r] -> be_to_Z r
   | _ -> failwith "log2 oracle"
 
+(* the run of a ~! { } comptime block: the extracted VM under the current configuration (the harness sets the default one),
+   empty cache; top stack item / empty stack / raise / undecided *)
+let ct_vm (code : bytes) : (bytes option) res =
+  match run_script orc !cfg (nat_of_int 20000) code [] with
+  | Done (_, _, st) -> (match st.st_stack with [] -> Ok None | top :: _ -> Ok (Some top))
+  | Raised (_, _, _) -> Err
+  | _ -> Unm
+
 let () =
   (try while true do
     let line = input_line stdin in
@@ -267,7 +275,7 @@ let () =
     | "ASRC" :: syms ->
       (* symbols of a SOURCE (output of parsing.get_symbols), each hex-encoded utf-8 -> Assembler.assemble_r *)
       let unhex h = if h = "-" then "" else ascii_of_bytes (bytes_of_hex h) in
-      (match assemble_r fl2_oracle (List.map (fun h -> coq_of_string (unhex h)) syms) with
+      (match assemble_r fl2_oracle ct_vm (List.map (fun h -> coq_of_string (unhex h)) syms) with
        | Ok b -> print_string ("= ok " ^ hex_of_bytes b ^ "\n")
        | Err -> print_string "= err\n"
        | Unm -> print_string "= unm\n")
@@ -279,7 +287,7 @@ let () =
       let sy = (match get_symbols txt with
         | Ok l -> "ok:" ^ String.concat "," (List.map hexs l)
         | Err -> "err" | Unm -> "unm") in
-      let cp = (match compile_text fl2_oracle txt with
+      let cp = (match compile_text fl2_oracle ct_vm txt with
         | Ok b -> "ok:" ^ hex_of_bytes b
         | Err -> "err" | Unm -> "unm") in
       print_string ("= " ^ sy ^ " " ^ cp ^ "\n")
